@@ -361,6 +361,9 @@ def pendingInner : Nat → Emit F → R (Emit F × Option Stage)
         pendingInner fuel { e with s := { e.s with pending := rest } }
       | some p =>
         if entry.fid ∈ p.acked then pendingInner fuel { e with s := { e.s with pending := rest } }
+        else if entry.fid = 0 ∧ p.expired e.s.flushId then
+          -- a TimeSensitive packet none of which was sent in the flush it was queued for: `self.pending_queue.clear()`
+          pendingInner fuel { e with s := { e.s with pending := [] } }
         else
           match dfePush e p entry.fid entry.resend with
           | .error t => .error t
